@@ -36,10 +36,105 @@ def load_table():
     META.clear()
     for e in d["sites"]:
         META[(e["function"], e["site"])] = (e.get("count", 1), e.get("under"))
+        if e.get("callers"):
+            CALLERS[(e["function"], e["site"])] = e["callers"]
     return tab
 
 
 META = {}
+CALLERS = {}
+_CALLERS_CACHE = {}
+
+
+def callers_satisfy_le(F, fkey, pa, pb, depth=0):
+    """every call site of fkey passes arguments with  arg(pa) <= arg(pb)  according to the guards dominating the call"""
+    ck = (id(F), fkey, pa, pb, "le")
+    if ck in _CALLERS_CACHE:
+        return _CALLERS_CACHE[ck]
+    from mirutil import known_le0, linear, implies_le0, lin_sub, expand_min
+    callee = F.funcs.get(fkey)
+    names = {nm: l - 1 for l, nm in callee.arg_names().items()} if callee else {}
+    if pa not in names or pb not in names:
+        res = (False, "parameters %s / %s of %s not found" % (pa, pb, fkey))
+    else:
+        res = (True, "")
+        for k, f in F.funcs.items():
+            if f.kind == "promoted" or f.d.get("test"):
+                continue
+            ex = None
+            for bi, t in f.calls():
+                if t.get("indirect") or t["callee"] != fkey:
+                    continue
+                ex = ex or Exprs(f)
+                a, b = ex.operand(t["args"][names[pa]]), ex.operand(t["args"][names[pb]])
+                known = known_le0(f, bi, ex)
+                ok = False
+                # b may be min(x, y): a <= min(x, y) iff a <= x and a <= y
+                bs = [b]
+                if isinstance(b, tuple) and b[0] == "call" and re.search(r"cmp::(Ord::)?min$|::min$", b[1]) and len(b[2]) == 2:
+                    bs = list(b[2])
+                elif isinstance(b, tuple) and b[0] == "var":
+                    from mirutil import _single_source
+                    src = _single_source(f, ex, b[1])
+                    if isinstance(src, tuple) and src[0] == "call" and re.search(r"cmp::(Ord::)?min$|::min$", src[1]) and len(src[2]) == 2:
+                        bs = list(src[2])
+                ok = all(implies_le0(known, lin_sub(linear(a), linear(x))) for x in bs)
+                if not ok and isinstance(a, tuple) and a[0] == "param" and isinstance(b, tuple) and b[0] == "param" and depth < 4 and f.kind in ("fn", "assocfn"):
+                    # the caller hands its own parameters through: the fact is one about *its* callers
+                    ok, sub_why = callers_satisfy_le(F, k, a[1], b[1], depth + 1)
+                    if not ok:
+                        res = (False, sub_why)
+                        break
+                if not ok:
+                    res = (False, "%s passes (%s, %s) without a dominating guard showing %s <= %s (%s)" % (k.split("::", 1)[-1], fmt(a)[:40], fmt(b)[:40], pa, pb, site_of(f, t)))
+                    break
+            if not res[0]:
+                break
+    _CALLERS_CACHE[ck] = res
+    return res
+
+
+def callers_satisfy(F, fkey, pname, ge):
+    """A table entry whose reason is a fact about the callers: every call site of `fkey` must pass, for parameter
+    `pname`, a value that the guards dominating the call show to be >= `ge`.  Returns (ok, description of the first
+    call site that does not)."""
+    ck = (id(F), fkey, pname, ge)
+    if ck in _CALLERS_CACHE:
+        return _CALLERS_CACHE[ck]
+    from mirutil import known_le0, linear, implies_le0
+    callee = F.funcs.get(fkey)
+    pos = None
+    if callee is not None:
+        for l, nm in callee.arg_names().items():
+            if nm == pname:
+                pos = l - 1
+    res = (False, "parameter %s of %s not found" % (pname, fkey))
+    if pos is not None:
+        res = (True, "")
+        ncall = 0
+        for k, f in F.funcs.items():
+            if f.kind == "promoted" or f.d.get("test"):
+                continue
+            ex = None
+            for bi, t in f.calls():
+                if t.get("indirect") or t["callee"] != fkey:
+                    continue
+                ncall += 1
+                ex = ex or Exprs(f)
+                arg = ex.operand(t["args"][pos])
+                known = known_le0(f, bi, ex)
+                la = linear(arg)
+                target = {kk: -v for kk, v in la.items() if kk != "1"}
+                target["1"] = ge - la.get("1", 0)            # ge - arg <= 0
+                if not implies_le0(known, target):
+                    res = (False, "%s passes %s without a dominating guard showing it is >= %d (%s)" % (k.split("::", 1)[-1], fmt(arg)[:60], ge, site_of(f, t)))
+                    break
+            if not res[0]:
+                break
+        if res[0] and ncall == 0:
+            res = (True, "no call sites")
+    _CALLERS_CACHE[ck] = res
+    return res
 
 
 USED = {}
@@ -87,6 +182,21 @@ def audit_scope(F, keys, rep, table, armed=True):
                 if under:
                     from mirutil import dominating_conds, cond_bool
                     conds_ok = any(cond_bool(c[1], c[2]) is True and re.search(under, fmt(c[0])) for c in dominating_conds(f, bi, aud.ex))
+                cwhy = ""
+                if conds_ok and (k, nkey) in CALLERS:
+                    cs = CALLERS[(k, nkey)]
+                    if "le" in cs:
+                        conds_ok, cwhy = callers_satisfy_le(F, k, cs["le"][0], cs["le"][1])
+                        what = "%s <= %s" % tuple(cs["le"])
+                    else:
+                        conds_ok, cwhy = callers_satisfy(F, k, cs["param"], cs["ge"])
+                        what = "%s >= %d" % (cs["param"], cs["ge"])
+                    if not conds_ok:
+                        if armed:
+                            rep.ob("C18-O", "%s in %s cannot overflow" % (desc[:160], k.split("::", 1)[-1]), False,
+                                   detail="%s; the table entry relies on every caller passing %s, but %s" % (why, what, cwhy), site=site_of(f, t),
+                                   key="C18-O | %s | %s" % (k, desc))
+                        continue
                 if USED[(k, nkey)] > cnt or not conds_ok:
                     if armed:
                         rep.ob("C18-O", "%s in %s cannot overflow" % (desc[:160], k.split("::", 1)[-1]), False,
